@@ -1,9 +1,456 @@
+/-
+  Rbgp.Accept.Spec — C16 written from the property text as a reference checker over
+  observations.  Imports the model only for its *types* (cases, observations); calls no
+  model function that computes an answer (the definitions below are the spec's own).
+
+  Property (properties.jsonl C16): a connection becomes a session only if its remote address
+  is a configured neighbour that is administratively up and has no other connection in the
+  same direction, or lies inside a configured dynamic-neighbour prefix; any other connection
+  is dropped before an OPEN is sent.  Role, expected AS, advertised capabilities, hold time,
+  prefix limits and policies are those configured for the neighbour or inherited from its
+  peer group; the two OPENs yield mirror-image parameters (a family, add-path direction,
+  extended message / next hop, 4-octet AS, GR or LLGR is in force iff both advertised it);
+  a dynamic neighbour's state disappears when its last connection ends.
+-/
 import Rbgp.Accept.Model
 namespace Rbgp.Accept.Spec
 open Rbgp.Accept
+
 inductive Verdict where
   | ok
   | fail (step : Nat) (clause : String)
   deriving Repr, DecidableEq
-def check (_c : Case) (_o : Obs) : Verdict := .ok
+
+/-- first violated requirement, if any: each entry is (requirement holds, clause name) -/
+def firstFail (step : Nat) : List (Bool × String) → Verdict
+  | [] => .ok
+  | (true, _) :: t => firstFail step t
+  | (false, c) :: _ => .fail step c
+
+def Verdict.andThen (v : Verdict) (k : Unit → Verdict) : Verdict :=
+  match v with
+  | .ok => k ()
+  | f => f
+
+def imp (a b : Bool) : Bool := !a || b
+
+/-! ## Part 1: the two OPENs yield mirror-image parameters -/
+
+def advMp (v : List Cap) (f : Family) : Bool :=
+  v.any fun c => match c with | .mp g => g = f | _ => false
+
+/-- every add-path mode a side lists for the family -/
+def modesFor (v : List Cap) (f : Family) : List Nat :=
+  v.flatMap fun c => match c with
+    | .addPath l => (l.filter fun t => t.1 = f).map (·.2)
+    | _ => []
+
+def rxBit (m : Nat) : Bool := m % 2 = 1        -- "able to receive multiple paths"
+def txBit (m : Nat) : Bool := m / 2 % 2 = 1    -- "able to send multiple paths"
+
+def someMode (v : List Cap) (f : Family) (p : Nat → Bool) : Bool := (modesFor v f).any p
+/-- the side advertised the direction unambiguously: at least one tuple, and all agree -/
+def allModes (v : List Cap) (f : Family) (p : Nat → Bool) : Bool :=
+  !(modesFor v f).isEmpty && (modesFor v f).all p
+
+def advExtMsg (v : List Cap) : Bool := v.any fun c => match c with | .extMsg => true | _ => false
+def advAs4 (v : List Cap) : Bool := v.any fun c => match c with | .as4 _ => true | _ => false
+/-- RFC 8950 tuple: NLRI AFI 1 with next-hop AFI 2 -/
+def advEnh (v : List Cap) (f : Family) : Bool :=
+  v.any fun c => match c with
+    | .enh l => l.any fun t => t.1 = f && t.1 / 65536 = 1 && t.2 = 2
+    | _ => false
+
+def grCaps (v : List Cap) : List (Nat × List Family) :=
+  v.filterMap fun c => match c with | .gr fl _ fams => some (fl, fams.map (·.1)) | _ => none
+def advGr (v : List Cap) (f : Family) : Bool := (grCaps v).any fun g => g.2.contains f
+def llgrTuples (v : List Cap) : List (Family × Nat) :=
+  v.flatMap fun c => match c with | .llgr l => l.map (fun e => (e.1, e.2.2)) | _ => []
+def advLlgr (v : List Cap) (f : Family) : Bool := (llgrTuples v).any fun e => e.1 = f
+def llgrCount (v : List Cap) (f : Family) : Nat := ((llgrTuples v).filter fun e => e.1 = f).length
+def llgrDup (v : List Cap) : Bool := (llgrTuples v).any fun e => llgrCount v e.1 > 1
+def llgrCaps (v : List Cap) : Nat := (v.filter fun c => match c with | .llgr _ => true | _ => false).length
+def llgrNonZero (v : List Cap) (f : Family) : Bool := (llgrTuples v).any fun e => e.1 = f && e.2 > 0
+
+def famsOf (c : Codec) : List Family := c.fams.map (·.fam)
+def stOf (c : Codec) (f : Family) : Option FamState := c.fams.find? fun s => s.fam = f
+def rxOf (c : Codec) (f : Family) : Bool := match stOf c f with | some s => s.rx | none => false
+def txOf (c : Codec) (f : Family) : Bool := match stOf c f with | some s => s.tx | none => false
+
+def sameSet (a b : List Nat) : Bool := a.all (b.contains ·) && b.all (a.contains ·)
+def nodupKeys (l : List (Nat × Nat)) : Bool :=
+  l.all fun e => (l.filter fun x => x.1 = e.1).length = 1
+
+/-- the configured send-max of a family: the case lists (family, n) pairs, a later pair replaces -/
+def cfgSendMax (sm : List (Family × Nat)) (f : Family) : Option Nat :=
+  sm.foldl (fun acc e => if e.1 = f then some e.2 else acc) none
+
+def emaxOk (sm : List (Family × Nat)) (c : Codec) (emax : List (Family × Nat)) : Bool :=
+  nodupKeys emax
+  && emax.all (fun e => cfgSendMax sm e.1 = some e.2 && txOf c e.1)
+  && sm.all (fun e => imp (txOf c e.1) (emax.any fun x => x.1 = e.1))
+
+def grFams : Option NegGr → List Family
+  | some g => g.fams
+  | none => []
+def llgrFams : Option (List (Family × Nat)) → List Family
+  | some l => l.map (·.1)
+  | none => []
+
+def checkNeg (l r : List Cap) (sm : List (Family × Nat)) (o : NegObs) : Verdict :=
+  let all := famsOf o.lr ++ famsOf o.rl ++ (l ++ r).filterMap (fun c => match c with | .mp f => some f | _ => none)
+  firstFail 0 [
+    -- mirror image
+    (famsOf o.lr == famsOf o.rl, "not-mirror-families"),
+    ((famsOf o.lr).all (fun f => rxOf o.lr f == txOf o.rl f && txOf o.lr f == rxOf o.rl f), "not-mirror-addpath"),
+    (o.lr.extMsg == o.rl.extMsg && o.lr.enh == o.rl.enh && o.lr.as4 == o.rl.as4, "not-mirror-flags"),
+    -- a family is in force iff both advertised it
+    (all.all (fun f => (famsOf o.lr).contains f == (advMp l f && advMp r f)), "family-not-iff-both"),
+    -- an add-path direction is in force only if both advertised it, and is in force if both
+    -- advertised it unambiguously
+    ((famsOf o.lr).all (fun f => imp (rxOf o.lr f) (someMode l f rxBit && someMode r f txBit)), "addpath-rx-without-both"),
+    ((famsOf o.lr).all (fun f => imp (txOf o.lr f) (someMode l f txBit && someMode r f rxBit)), "addpath-tx-without-both"),
+    ((famsOf o.lr).all (fun f => imp (allModes l f rxBit && allModes r f txBit) (rxOf o.lr f)), "addpath-rx-missing"),
+    ((famsOf o.lr).all (fun f => imp (allModes l f txBit && allModes r f rxBit) (txOf o.lr f)), "addpath-tx-missing"),
+    (o.lr.extMsg == (advExtMsg l && advExtMsg r), "extmsg-not-iff-both"),
+    (o.lr.as4 == (advAs4 l && advAs4 r), "as4-not-iff-both"),
+    (o.lr.enh == all.any (fun f => advMp l f && advMp r f && advEnh l f && advEnh r f), "extnexthop-not-iff-both"),
+    -- the session is handed exactly this codec, and sends several paths only where it encodes path ids
+    (o.fsmSame, "fsm-codec-differs-from-negotiate"),
+    (emaxOk sm o.lr o.emaxLr && emaxOk sm o.rl o.emaxRl, "sendmax-disagrees-with-codec"),
+    -- graceful restart
+    (o.grL.isSome == o.grR.isSome && sameSet (grFams o.grL) (grFams o.grR)
+      && (o.grL.map (·.notif)) == (o.grR.map (·.notif)), "gr-not-symmetric"),
+    ((grFams o.grL).all (fun f => advGr l f && advGr r f), "gr-without-both"),
+    (imp ((grCaps l).length = 1 && (grCaps r).length = 1)
+      (all.all (fun f => imp (advGr l f && advGr r f) ((grFams o.grL).contains f))), "gr-missing"),
+    -- long-lived graceful restart
+    (imp (llgrDup l || llgrDup r) (o.llgrL.isSome == o.llgrR.isSome && sameSet (llgrFams o.llgrL) (llgrFams o.llgrR))
+      , "llgr-not-symmetric-duplicate-entries"),
+    (o.llgrL.isSome == o.llgrR.isSome && sameSet (llgrFams o.llgrL) (llgrFams o.llgrR), "llgr-not-symmetric"),
+    ((llgrFams o.llgrL).all (fun f => advLlgr l f && advLlgr r f), "llgr-without-both"),
+    (imp (!llgrDup l && !llgrDup r && llgrCaps l ≤ 1 && llgrCaps r ≤ 1)
+      (all.all (fun f => imp (llgrNonZero l f && llgrNonZero r f) ((llgrFams o.llgrL).contains f))), "llgr-missing")
+  ]
+
+/-! ## Part 2: "lies inside a configured dynamic-neighbour prefix" -/
+
+/-- bit `i` (0 = most significant bit of the first octet) of an address -/
+def bitAt (bs : List Nat) (i : Nat) : Bool := (bs.getD (i / 8) 0) / 2 ^ (7 - i % 8) % 2 = 1
+
+/-- the address agrees with the prefix on the first `mask` bits (same address family) -/
+def covers (n : Net) (a : Ip) : Bool :=
+  n.bytes.length = a.bytes.length && (List.range n.mask).all fun i => bitAt n.bytes i = bitAt a.bytes i
+
+def maskInRange (n : Net) : Bool := n.mask ≤ 8 * n.bytes.length
+
+def checkContains (n : Net) (a : Ip) : Obs → Verdict
+  | .contains b =>
+      if n.bytes.length = a.bytes.length && !maskInRange n then .ok      -- not a prefix: nothing required
+      else if b = covers n a then .ok else .fail 0 "contains-differs-from-cover"
+  | .panic => if n.bytes.length = a.bytes.length && !maskInRange n then .ok else .fail 0 "contains-panicked"
+  | _ => .fail 0 "wrong-observation-kind"
+
+/-! ## Part 3: configured or inherited parameters, role -/
+
+def lastOf (l : List (Nat × Nat)) (f : Nat) : Option Nat :=
+  l.foldl (fun acc e => if e.1 = f then some e.2 else acc) none
+
+/-- the same finite map: same keys, same value per key, no key twice in the observation -/
+def sameMap (cfg obs : List (Nat × Nat)) : Bool :=
+  nodupKeys obs && obs.all (fun e => lastOf cfg e.1 = some e.2) && cfg.all (fun e => obs.any fun x => x.1 = e.1)
+
+/-- what a neighbour ends up with: its own setting when it has one, else the group's -/
+structure Want where
+  expected : Nat
+  localAs : Nat                 -- own or inherited local AS (0 = use the global AS)
+  hold : Nat
+  rs : Bool
+  rrClient : Bool
+  fams : List (Family × Nat)
+  sm : List (Family × Nat)
+  pl : List (Family × Nat)
+  gr : Option GrCfg
+  llgr : Option LlgrCfg
+  pol : Option Bool
+  dyn : Bool
+  deriving Repr, DecidableEq
+
+def wantStatic (p : Params) (g : Option Group) : Want :=
+  match g with
+  | none =>
+      { expected := p.expected, localAs := p.localAsn, hold := p.hold, rs := p.rs, rrClient := p.rrClient
+        fams := p.fams, sm := p.sm, pl := p.pl, gr := p.gr, llgr := p.llgr, pol := p.pol, dyn := false }
+  | some g =>
+      { expected := if p.expected != 0 then p.expected else g.asn
+        localAs := if p.localAsn != 0 then p.localAsn else g.localAsn
+        hold := if p.hold != 180 then p.hold else g.hold.getD 180
+        rs := p.rs || g.rs
+        rrClient := p.rrClient || g.rrClient
+        fams := if !p.fams.isEmpty then p.fams else g.fams
+        sm := if !p.fams.isEmpty then p.sm else g.sm
+        pl := p.pl
+        gr := if p.gr.isSome then p.gr else g.gr
+        llgr := if p.llgr.isSome then p.llgr else g.llgr
+        pol := p.pol, dyn := false }
+
+def wantDynamic (g : Group) : Want :=
+  { expected := g.asn, localAs := g.localAsn, hold := g.hold.getD 180, rs := g.rs, rrClient := g.rrClient
+    fams := g.fams, sm := g.sm, pl := [], gr := g.gr, llgr := g.llgr, pol := none, dyn := true }
+
+/-- advertised capabilities are exactly the configured ones: one MP per configured family (the
+    neighbour's own address family when none is configured), an add-path tuple per family with a
+    non-zero mode, GR / LLGR as configured, 4-octet AS with the local AS, extended message;
+    extended next hop only towards an IPv6 neighbour and only for configured IPv4-AFI families -/
+def capsOk (w : Want) (v6 : Bool) (localAsn : Nat) (caps : List Cap) : Bool :=
+  let cfgFams : List Nat := if w.fams.isEmpty then [if v6 then 131073 else 65537] else w.fams.map (·.1)
+  let mps := caps.filterMap fun c => match c with | .mp f => some f | _ => none
+  let aps := caps.flatMap fun c => match c with | .addPath l => l | _ => []
+  let wantAp := (cfgFams.filterMap fun f => (lastOf w.fams f).bind fun m => if m > 0 then some (f, m) else none)
+  let grs := caps.filterMap fun c => match c with | .gr fl t fs => some (fl, t, fs) | _ => none
+  let lls := caps.filterMap fun c => match c with | .llgr l => some l | _ => none
+  let enhs := caps.flatMap fun c => match c with | .enh l => l | _ => []
+  sameSet mps cfgFams && mps.all (fun f => (mps.filter (· = f)).length = 1)
+  && sameMap wantAp aps
+  && (match w.gr with
+      | none => grs.isEmpty
+      | some g => grs == [((if g.nbit then 4 else 0), g.time, g.fams.map fun f => (f, 0))])
+  && (match w.llgr with
+      | none => lls.isEmpty
+      | some l => lls == [l.fams.map fun e => (e.1, 0, e.2)])
+  && (caps.filterMap fun c => match c with | .as4 n => some n | _ => none) == [localAsn]
+  && (caps.filter fun c => c == .extMsg).length = 1
+  && enhs.all (fun t => v6 && t.2 = 2 && t.1 / 65536 = 1 && cfgFams.contains t.1)
+  && caps.all (fun c => match c with
+      | .mp _ | .addPath _ | .gr .. | .llgr _ | .as4 _ | .extMsg | .enh _ => true
+      | _ => false)
+
+/-- the AS this speaker presents to the neighbour (RFC 5065 §4: the confederation identifier
+    towards a neighbour that is neither in a member AS nor in our own) -/
+def presentedAs (gl : GlobalCfg) (w : Want) : Nat :=
+  let own := if w.localAs != 0 then w.localAs else gl.asn
+  match gl.confed with
+  | some (id, members) => if !members.contains w.expected && w.expected != own then id else own
+  | none => own
+
+/-- role derived from the configured expected AS (no requirement when none is configured) -/
+def roleOk (gl : GlobalCfg) (w : Want) (role : PeerRole) : Bool :=
+  if w.rs then role = .rsClient
+  else if w.expected = 0 then true
+  else if w.expected = presentedAs gl w then role = (if w.rrClient then .rrClient else .ibgp)
+  else if (match gl.confed with | some (_, m) => m.contains w.expected | none => false) then role = .confed
+  else role = .ebgp
+
+def cfgOk (gl : GlobalCfg) (w : Want) (v6 : Bool) (c : PeerCfg) (role : PeerRole) : List (Bool × String) :=
+  [ (c.expected = w.expected, "expected-as-not-configured-or-inherited"),
+    (c.hold = w.hold, "hold-time-not-configured-or-inherited"),
+    (capsOk w v6 c.localAsn c.caps, "capabilities-not-configured-or-inherited"),
+    (sameMap w.pl c.pl, "prefix-limits-not-configured"),
+    (sameMap w.sm c.sm, "send-max-not-configured-or-inherited"),
+    (c.pol = w.pol, "policy-not-configured"),
+    (c.rs = w.rs && c.rrClient = w.rrClient && c.dyn = w.dyn, "flags-not-configured-or-inherited"),
+    (roleOk gl w role, "role-derivation") ]
+
+/-- the session uses exactly the neighbour's resolved configuration -/
+def sessOk (gl : GlobalCfg) (c : PeerCfg) (role : PeerRole) (s : SessInfo) : List (Bool × String) :=
+  [ (s.role = role, "session-role-differs-from-neighbour"),
+    (s.caps = c.caps && s.localAsn = c.localAsn, "session-capabilities-differ-from-neighbour"),
+    (s.pl = c.pl, "session-prefix-limits-differ-from-neighbour"),
+    (s.cluster = (if role = .ibgp || role = .rrClient then some (c.cluster.getD gl.rid) else none), "session-cluster-id"),
+    (s.confedId = (match gl.confed with | some (id, _) => id | none => 0), "session-confederation-id") ]
+
+/-! ## Part 4: histories -/
+
+structure Known where
+  addr : Ip
+  cfg : PeerCfg
+  role : PeerRole
+  deriving Repr, DecidableEq
+
+structure LiveS where
+  sid : Nat
+  addr : Ip
+  role : Role
+  closing : Bool            -- an administrative shutdown / reset / disable / delete was issued for its
+                            -- address since it was accepted
+  cfg : PeerCfg
+  deriving Repr, DecidableEq
+
+/-- what an observer of the history remembers -/
+structure S where
+  rows : List SnapRow        -- `Global.peers` as last reported
+  known : List Known         -- validated configuration per address present
+  live : List LiveS
+  nextSid : Nat
+  deriving Repr
+
+def rowOf (rows : List SnapRow) (a : Ip) : Option SnapRow := rows.find? fun r => r.addr = a
+def knownOf (k : List Known) (a : Ip) : Option Known := k.find? fun r => r.addr = a
+
+/-- groups one of whose dynamic prefixes covers the address (a group named twice: the last
+    definition counts) -/
+def coveringGroups (gs : List Group) (a : Ip) : List Group :=
+  (gs.reverse.foldl (fun acc g => if acc.any (fun x => x.name = g.name) then acc else g :: acc) []).filter
+    fun g => g.nets.any fun n => covers n a
+
+def isAccept : Res → Bool
+  | .accept .. | .acceptAmb .. => true
+  | _ => false
+
+def liveFor (l : List LiveS) (a : Ip) : List LiveS := l.filter fun s => s.addr = a
+
+def dynRowsHaveConn (rows : List SnapRow) (live : List LiveS) : Bool :=
+  rows.all fun r => imp r.dyn (live.any fun s => s.addr = r.addr)
+
+def checkConnect (gl : GlobalCfg) (groups : List Group) (k : Nat) (st : S) (a : Ip) (role : Role)
+    (o : StepObs) : Verdict × S × Bool :=
+  let row := rowOf st.rows a
+  let same := (liveFor st.live a).filter fun s => s.role = role
+  let cands := coveringGroups groups a
+  let fail (c : String) : Verdict × S × Bool := (.fail k c, st, true)
+  match o.res with
+  | .reject n =>
+      let v := firstFail k [
+        (n = 0, "data-sent-before-drop"),
+        (imp (row.isSome && (row.map (·.adminDown)) = some false) (!same.isEmpty), "rejected-eligible-neighbour"),
+        (imp row.isNone cands.isEmpty, "rejected-address-inside-dynamic-prefix"),
+        (o.snap == st.rows, "state-changed-by-rejected-connection") ]
+      (v, st, false)
+  | .accept sid info cfg prole =>
+      match row with
+      | some r =>
+          if r.adminDown then fail "accepted-admin-down-neighbour"
+          else if same.any (fun s => !s.closing) then fail "accepted-second-connection-same-direction"
+          else if !same.isEmpty then fail "accepted-while-closing-connection-same-direction"
+          else if sid != st.nextSid then fail "session-id"
+          else
+            match knownOf st.known a with
+            | none => fail "neighbour-without-validated-configuration"
+            | some kn =>
+              let v := firstFail k ([ (cfg = kn.cfg && prole = kn.role, "neighbour-configuration-changed") ]
+                        ++ sessOk gl cfg prole info
+                        ++ [ ((rowOf o.snap a).isSome, "accepted-without-neighbour-state"),
+                             (dynRowsHaveConn o.snap (st.live ++ [⟨sid, a, role, false, cfg⟩]), "dynamic-neighbour-without-connection") ])
+              (v, { st with rows := o.snap, live := st.live ++ [⟨sid, a, role, false, cfg⟩], nextSid := sid + 1 }, false)
+      | none =>
+          match cands with
+          | [] => fail "accepted-unconfigured-address"
+          | [g] =>
+              if sid != st.nextSid then fail "session-id"
+              else
+                let v := firstFail k (cfgOk gl (wantDynamic g) (a.bytes.length = 16) cfg prole
+                          ++ sessOk gl cfg prole info
+                          ++ [ (decide ((rowOf o.snap a).map (·.dyn) = some true), "accepted-without-dynamic-neighbour-state"),
+                               (dynRowsHaveConn o.snap (st.live ++ [⟨sid, a, role, false, cfg⟩]), "dynamic-neighbour-without-connection") ])
+                (v, { rows := o.snap, known := st.known ++ [⟨a, cfg, prole⟩]
+                      live := st.live ++ [⟨sid, a, role, false, cfg⟩], nextSid := sid + 1 }, false)
+          | _ => fail "several-groups-match-but-not-reported"
+  | .acceptAmb sid names consistent =>
+      if row.isSome then fail "ambiguity-reported-for-known-neighbour"
+      else if cands.length < 2 then fail "ambiguity-reported-without-overlap"
+      else
+        let v := firstFail k [
+          (sid = st.nextSid, "session-id"),
+          (sameSetS names (cands.map (·.name)), "matching-groups"),
+          (consistent, "dynamic-neighbour-not-from-a-matching-group") ]
+        (v, st, true)
+  | _ => fail "connect-result"
+where
+  sameSetS (a b : List String) : Bool := a.all (b.contains ·) && b.all (a.contains ·)
+
+def checkDisc (k : Nat) (st : S) (sid : Nat) (o : StepObs) : Verdict × S :=
+  match st.live.find? (fun s => s.sid = sid) with
+  | none => (firstFail k [ (o.res = .noSession, "disconnect-of-unknown-session"), (o.snap == st.rows, "state-changed") ], st)
+  | some s =>
+      let live := st.live.filter fun x => x.sid != sid
+      let wasDyn := (rowOf st.rows s.addr).map (·.dyn) = some true
+      let v := firstFail k [
+        (match o.res with
+          | .discOpen asn hold _ caps => asn = s.cfg.localAsn && hold = s.cfg.hold && caps = s.cfg.caps
+          | .discNotif .. => true
+          | _ => false, "open-differs-from-configuration"),
+        (imp (wasDyn && (liveFor live s.addr).isEmpty) (rowOf o.snap s.addr).isNone, "dynamic-neighbour-not-removed"),
+        (dynRowsHaveConn o.snap live, "dynamic-neighbour-without-connection") ]
+      (v, { st with rows := o.snap, live := live
+                    known := st.known.filter fun kn => (rowOf o.snap kn.addr).isSome })
+
+def closeAll (l : List LiveS) (a : Ip) : List LiveS :=
+  l.map fun s => if s.addr = a then { s with closing := true } else s
+
+inductive Api where
+  | enable | disable | delete | shutdown | reset
+  deriving DecidableEq, Repr
+
+def checkApi (k : Nat) (st : S) (kind : Api) (a : Ip) (o : StepObs) : Verdict × S :=
+  let row := rowOf st.rows a
+  let row' := rowOf o.snap a
+  let live := if kind = .enable || row.isNone then st.live else closeAll st.live a
+  let v := firstFail k [
+    (o.res = .api row.isSome, "api-result"),
+    (match kind with
+      | .delete => row'.isNone
+      | .enable => imp row.isSome (row'.map (·.adminDown) = some false)
+      | .disable => imp row.isSome (row'.map (·.adminDown) = some true)
+      | _ => row'.map (·.adminDown) = row.map (·.adminDown), "admin-state"),
+    (dynRowsHaveConn o.snap live, "dynamic-neighbour-without-connection") ]
+  (v, { st with rows := o.snap, live := live, known := st.known.filter fun kn => (rowOf o.snap kn.addr).isSome })
+
+def checkSteps (gl : GlobalCfg) (groups : List Group) : Nat → S → List Op → List StepObs → Verdict
+  | _, _, [], [] => .ok
+  | k, _, [], _ :: _ => .fail k "trace-length"
+  | k, _, _ :: _, [] => .fail k "trace-length"
+  | k, st, op :: ops, o :: os =>
+      match op with
+      | .connect a role =>
+          let (v, st', stop) := checkConnect gl groups k st a role o
+          match v with
+          | .ok =>
+              if stop then
+                if os.all (fun x => x.res = .aborted) && os.length = ops.length then .ok else .fail (k + 1) "not-aborted-after-ambiguity"
+              else checkSteps gl groups (k + 1) st' ops os
+          | f => f
+      | .disc sid =>
+          let (v, st') := checkDisc k st sid o
+          v.andThen fun _ => checkSteps gl groups (k + 1) st' ops os
+      | .enable a => let (v, st') := checkApi k st .enable a o; v.andThen fun _ => checkSteps gl groups (k + 1) st' ops os
+      | .disable a => let (v, st') := checkApi k st .disable a o; v.andThen fun _ => checkSteps gl groups (k + 1) st' ops os
+      | .delete a => let (v, st') := checkApi k st .delete a o; v.andThen fun _ => checkSteps gl groups (k + 1) st' ops os
+      | .shutdown a => let (v, st') := checkApi k st .shutdown a o; v.andThen fun _ => checkSteps gl groups (k + 1) st' ops os
+      | .reset a => let (v, st') := checkApi k st .reset a o; v.andThen fun _ => checkSteps gl groups (k + 1) st' ops os
+
+def findGroupLast (gs : List Group) (n : String) : Option Group := gs.reverse.find? fun g => g.name = n
+
+/-- configured neighbours: a neighbour is added unless its address is already taken; each added
+    neighbour's resolved configuration is its own or inherited from its (existing) group -/
+def checkSetup (gl : GlobalCfg) (groups : List Group) : List Ip → List PeerCase → List Bool → List SetupRow → Verdict
+  | _, [], [], _ => .ok
+  | _, [], _ :: _, _ => .fail 0 "setup-length"
+  | _, _ :: _, [], _ => .fail 0 "setup-length"
+  | taken, pc :: pcs, ad :: ads, rows =>
+      let a := pc.params.addr
+      if taken.contains a then
+        if ad then .fail 0 "duplicate-neighbour-address-added" else checkSetup gl groups taken pcs ads rows
+      else if !ad then .fail 0 "neighbour-not-added"
+      else
+        match rows.find? (fun r => r.addr = a) with
+        | none => .fail 0 "added-neighbour-missing"
+        | some r =>
+            let w := wantStatic pc.params (pc.group.bind (findGroupLast groups))
+            (firstFail 0 ([ (decide (r.adminDown = pc.params.adminDown), "admin-state-not-configured") ]
+                ++ cfgOk gl w (a.bytes.length = 16) r.cfg r.role)).andThen fun _ =>
+              checkSetup gl groups (a :: taken) pcs ads rows
+
+def checkHist (gl : GlobalCfg) (groups : List Group) (peers : List PeerCase) (ops : List Op) (h : HistObs) : Verdict :=
+  (checkSetup gl groups [] peers h.added h.setup).andThen fun _ =>
+    let rows := h.setup.map fun r => { addr := r.addr, adminDown := r.adminDown, dyn := false, slotA := false, slotP := false : SnapRow }
+    if h.setup.length != (h.added.filter id).length then .fail 0 "setup-rows" else
+    checkSteps gl groups 1
+      { rows := rows, known := h.setup.map fun r => ⟨r.addr, r.cfg, r.role⟩, live := [], nextSid := 0 } ops h.steps
+
+def check : Case → Obs → Verdict
+  | .neg l r sm, .neg o => checkNeg l r sm o
+  | .contains n a, o => checkContains n a o
+  | .hist g gs ps ops, .hist h => checkHist g gs ps ops h
+  | _, _ => .fail 0 "wrong-observation-kind"
+
 end Rbgp.Accept.Spec
